@@ -112,6 +112,69 @@ func runC05(ctx *Ctx) *Report {
 		c2.Doc, c2.DocText, c2.Fmt, c2.Busy, c2.Tree = hx(doc), docText(doc), fmtDefault, true, t.Enc()
 		cases = append(cases, c2)
 	})
+	// rows whose line ending is not the plain one: CR LF, CR CR LF, CR CR CR LF, an unterminated last row that ends in
+	// CR or CR CR (the scanner takes one CR with the LF; what is left belongs to the name). The walk reads its rows
+	// with another function than the text output does: the visits are compared with the model and, line by line,
+	// with what OutputFromMarkdown prints for the same bytes
+	{
+		var eolCases []Case
+		ends := []string{"\n", "\r\n", "\r\r\n", "\r\r\r\n", "\r\r\n", "\n"}
+		lf := lineFormats()
+		for k := 0; k < pick(ctx.Thorough, 6000, 400); k++ {
+			f := randForest(ctx.Rng, 1+ctx.Rng.Intn(12), []string{"plain", "plain", "bullets", "blanks", "quotes"}, 3, rep.Dist)
+			sp := randSpelling(ctx.Rng)
+			sp.CRLF, sp.FinalNL = false, true
+			if !representable(f, sp) {
+				sp.Sharp, sp.NoSpace = false, false
+			}
+			if !representable(f, sp) {
+				continue
+			}
+			rows := strings.Split(strings.TrimSuffix(string(spell(f, sp)), "\n"), "\n")
+			var sb strings.Builder
+			mode := ctx.Rng.Intn(4) // 0: one kind of ending on every row; 1: a random ending per row; 2: one odd row; 3: like 1, last row unterminated
+			one := ends[1+ctx.Rng.Intn(3)]
+			odd := ctx.Rng.Intn(len(rows))
+			for i, r := range rows {
+				e := "\n"
+				switch mode {
+				case 0:
+					e = one
+				case 1, 3:
+					e = ends[ctx.Rng.Intn(len(ends))]
+				case 2:
+					if i == odd {
+						e = one
+					}
+				}
+				if i == len(rows)-1 && (mode == 3 || ctx.Rng.Intn(5) == 0) {
+					e = []string{"", "\r", "\r\r", "\r\r\r"}[ctx.Rng.Intn(4)]
+				}
+				if ctx.Rng.Intn(12) == 0 {
+					// the same row once more with another ending: two names that differ by a trailing CR are two nodes
+					sb.WriteString(r + e)
+					e = ends[ctx.Rng.Intn(len(ends))]
+				}
+				sb.WriteString(r + e)
+			}
+			doc := []byte(sb.String())
+			c := newCase("walk")
+			c.Doc, c.DocText, c.Fmt, c.Note = hx(doc), docText(doc), lf[k%len(lf)], "eol"
+			c.Alias = k%2 == 0
+			eolCases = append(eolCases, c)
+		}
+		for _, d := range []string{"- a\r\r\n  - b\r\r\n- c\r\r\n", "- r\n  - a\n  - a\r\r\n  - b\n", "- r\r\n  - a\r\r", "- r\n  - a\r\r\r\n  - a\r\r\n  - a\r\n", "# h\r\r\n- x\r\n- y\r\r\n", "- a\r\r"} {
+			c := newCase("walk")
+			c.Doc, c.DocText, c.Fmt, c.Note = hxs(d), d, fmtDefault, "eol"
+			eolCases = append(eolCases, c)
+		}
+		parallel(eolCases, ctx.Workers, func(m *Model, c Case) {
+			diffs, realv := runCaseR(m, c)
+			diffs = append(diffs, walkVsOutput(c)...)
+			rep.Record(c, caseKey(c), true, diffs)
+			rep.Count("eol-walk:" + resultClass(realv))
+		})
+	}
 	runCases(rep, cases, ctx.Workers, func(c Case) bool { return c.Note != "" || nonTrivialEnc(c.Tree) })
 	// the same root through several operations with different branch strings, and an iterator that is created
 	// before the tree is finished: every walk shows the tree as it is, drawn with the walk's own options
@@ -166,4 +229,54 @@ func runC05(ctx *Ctx) *Report {
 		})
 	}
 	return rep
+}
+
+// walkVsOutput evaluates the first clause of C05 directly on the real code: the walk (callback form) visits
+// the nodes in the order of the text output's lines, Row is that line and is Branch + space + Name.
+func walkVsOutput(c Case) []Diff {
+	doc := c.doc()
+	fo := fmtOpts(c.Fmt)
+	var out bytes.Buffer
+	eo := gtree.OutputFromMarkdown(&out, bytes.NewReader(doc), fo...)
+	type visit struct {
+		row, branch, name string
+		level             uint
+	}
+	var vs []visit
+	cb := func(wn *gtree.WalkerNode) error {
+		vs = append(vs, visit{wn.Row(), wn.Branch(), wn.Name(), wn.Level()})
+		return nil
+	}
+	var ew error
+	if c.Alias {
+		ew = gtree.Walk(bytes.NewReader(doc), cb, fo...)
+	} else {
+		ew = gtree.WalkFromMarkdown(bytes.NewReader(doc), cb, fo...)
+	}
+	if classify(eo) != classify(ew) {
+		return []Diff{{What: "walk and text output of the same document end differently", Real: "walk: " + classify(ew), Model: "output: " + classify(eo)}}
+	}
+	if eo != nil {
+		return nil
+	}
+	lines := strings.Split(out.String(), "\n")
+	if n := len(lines); n > 0 && lines[n-1] == "" {
+		lines = lines[:n-1]
+	}
+	if len(lines) != len(vs) {
+		return []Diff{{What: "the walk makes another number of visits than the text output has lines", Real: itoa(len(vs)) + " visits", Model: itoa(len(lines)) + " lines: " + hx(out.Bytes())}}
+	}
+	for i, v := range vs {
+		if v.row != lines[i] {
+			return []Diff{{What: "Row of visit " + itoa(i) + " is not line " + itoa(i) + " of the text output", Real: hxs(v.row), Model: hxs(lines[i])}}
+		}
+		want := v.branch + " " + v.name
+		if v.level == 1 {
+			want = v.name
+		}
+		if v.row != want {
+			return []Diff{{What: "Row of visit " + itoa(i) + " is not Branch + space + Name", Real: hxs(v.row), Model: hxs(want)}}
+		}
+	}
+	return nil
 }
